@@ -254,7 +254,11 @@ func (e *integEngine) installHooks() {
 				e.pl.ident.Store(gid, t.Name) // a goroutine that runs several tasks in sequence (CLI targets)
 			}
 			if e.prof.UseRunEnter {
-				c.Yield("run-enter", t.Name, gid)
+				key := t.Name
+				if who := e.pl.identity(gid); who != "" && who != t.Name {
+					key += "@" + who // a task shared by several stages: one park per stage
+				}
+				c.Yield("run-enter", key, gid)
 			} else {
 				c.NoteData("run-enter", t.Name, "", gid)
 			}
@@ -268,7 +272,7 @@ func (e *integEngine) installHooks() {
 			if st := e.upState[name]; st != nil && atomic.LoadInt32(st) == 2 {
 				return // already up: nothing to explore
 			}
-			c.Yield("ctx-up-enter", name, nil)
+			c.Yield("ctx-up-enter", name+"@"+e.pl.identity(curGID()), name)
 		}
 	}
 	runner.VerifNote = func(kind string, subj interface{}) {
@@ -697,7 +701,7 @@ func (e *integEngine) releasePark(p *Park) {
 		}
 		c.Release(p, Action{Kind: "go"})
 	case "ctx-up-enter":
-		st := e.upState[p.Key]
+		st := e.upState[p.Data.(string)]
 		if st != nil && atomic.LoadInt32(st) == 1 {
 			e.limbo(p)
 			return
@@ -716,10 +720,10 @@ func (e *integEngine) releasePark(p *Park) {
 // anything else means a task got past Up() while `up` was still running.
 func (e *integEngine) limbo(first *Park) {
 	c := e.c
-	name := first.Key
+	name := first.Data.(string)
 	var group []*Park
 	for _, p := range c.ParkedOf("ctx-up-enter") {
-		if p.Key == name {
+		if p.Data.(string) == name {
 			group = append(group, p)
 		}
 	}
